@@ -324,7 +324,9 @@ impl Transaction {
     }
 }
 
-#[cfg(bsv_verif)]
+// `--cfg bsv_verif_no_hashcache` switches this one accessor off again: the harness falls back to it when a refactor of
+// HashCache stops the accessor from compiling, so that the other hooks (and every check that does not need this one) stay usable
+#[cfg(all(bsv_verif, not(bsv_verif_no_hashcache)))]
 impl Transaction {
     /// Verification-only, read-only view of the three memo slots (hash_inputs, hash_sequence, hash_outputs).
     pub fn verif_hash_cache(&self) -> [Option<Vec<u8>>; 3] {
